@@ -88,3 +88,10 @@ package confutil
 //@ nilsafe
 //@ requires t != nil
 //@ ensures imp(result_of(strconv.ParseFloat, 1) != nil, result1 != nil && cause(result1) == ErrCantCastVariableToTargetType)
+
+// Resolvers are looked up by lower-cased tag: registering under any spelling of a tag replaces that tag's resolver.
+//@ func RegisterTagResolver
+//@ props C17
+//@ env [the-resolver-table-is-made-at-package-initialisation] resolvers != nil
+//@ ensures [registered-under-the-lower-cased-tag] has(resolvers, strings.ToLower(tagType0)) && resolvers[strings.ToLower(tagType0)] == resolver
+//@ ensures [other-tags-untouched] forall_t(q, string, imp(q != strings.ToLower(tagType0), has(resolvers, q) == old(has(resolvers, q)) && resolvers[q] == old(resolvers[q])))
